@@ -12,8 +12,9 @@ func init() {
 		Title: "Serialising and reloading any index preserves every search answer",
 		Harnesses: []*HarnessSpec{
 			{Name: "H_C07_vector", Tier: "quick", What: "5 vector kinds x {l2sq, cosine (+l2 for flat)} x states {untrained/empty, trained+empty, 3 vectors, 3 vectors with one removed}: write count = stream length = read count, the reader stops exactly at the end of the index's bytes (a sentinel follows), the reloaded index returns the same list (symbolic query for flat, 3 queries otherwise; k in {1,10}), writing does not change the source's answers, removed ids absent (in-package scan), reloaded index accepts Add / Remove", Covers: []string{"trained-state", "untrained-state"}},
-			{Name: "H_C07_text", Tier: "quick", What: "BM25: 0..2 documents, optional pending removal, 3 queries, k symbolic: same answers, representation invariant of the reloaded index, continuation", Covers: []string{"ran"}},
+			{Name: "H_C07_text", Tier: "quick", What: "BM25: 0..2 documents, optional pending removal, 3 queries, k symbolic: same answers, representation invariant of the reloaded index, continuation (Add, Remove of a loaded document, Flush on both sides: same answers, no trace of the purged document)", Covers: []string{"ran"}},
 			{Name: "H_C07_meta", Tier: "quick", What: "metadata: 0..3 documents (symbolic integers), optional removal, 5 filters incl. a symbolic bound: same id sets, continuation", Covers: []string{"ran"}},
+			{Name: "H_C07_hnsw_graph", Tier: "quick", What: "HNSW M=2 with 9 concrete vectors (layer-0 lists longer than M), optional pending removal, l2sq / cosine: the reloaded graph answers 12 query points and every stored node id under efSearch 1 and 2 (narrow beam, k=1..2) exactly like the source", Covers: []string{"ran", "more-than-M-links-on-layer-0"}},
 			{Name: "H_C07_hybrid", Tier: "quick", What: "hybrid over flat / hnsw / ivf with and without text / metadata: four writers concatenated into ONE reader followed by a sentinel; same answers per modality; Remove / Add on the reloaded index reach every modality", Covers: []string{"ran"}},
 		},
 		ModelDiff:   true,
